@@ -883,6 +883,34 @@ example : Hist.mChain ⟨1, 2, [[1, 2]]⟩ [(true, ⟨1, 2, [[10, 20]]⟩), (fal
   decide +kernel
 example : Hist.vChain [1, 2] [(true, [10, 20]), (true, [100, 200])] = .ok [111, 222] := by decide +kernel
 
+
+/-! ## Moves -/
+
+/-- swapping twice restores both objects; a swap exchanges the values (shape and entries) -/
+theorem mMoves_swap (A B : Mat) : Hist.mMoves "swap" A B = .ok [B, A] := by simp [Hist.mMoves]
+
+theorem mMoves_swap_swap (A B : Mat) :
+    (Hist.mMoves "swap" A B).bind (fun l => Hist.mMoves "swap" (l.getD 0 A) (l.getD 1 B)) = .ok [A, B] := by
+  simp [Hist.mMoves, Except.bind]
+
+/-- a moved-to, pushed or returned object is the source value: same shape, same entries, hence every observer
+    and every law evaluates as on the source -/
+theorem mMoves_value (A B : Mat) :
+    Hist.mMoves "move" A B = .ok [A] ∧ Hist.mMoves "ret" A B = .ok [A] ∧ Hist.mMoves "assign" A B = .ok [A] ∧
+    Hist.mMoves "push" A B = .ok [A, B] := by
+  simp [Hist.mMoves]
+
+theorem vMoves_value (u v : Vec) :
+    Hist.vMoves "swap" u v = .ok [v, u] ∧ Hist.vMoves "move" u v = .ok [u] ∧ Hist.vMoves "ret" u v = .ok [u] ∧
+    Hist.vMoves "push" u v = .ok [u, v] := by
+  simp [Hist.vMoves]
+
+/-- a list of blocks filled by moves gives the block matrix of the source values -/
+theorem mMoves_blocks (A B : Mat) :
+    Hist.mMoves "blocks" A B = (match blockCtor [[A, B]] with | .ok C => .ok [C] | .error e => .error e) := by
+  simp only [Hist.mMoves, String.reduceEq, if_false, if_true]
+  generalize blockCtor [[A, B]] = q; cases q <;> rfl
+
 /-! ## Non-vacuity: concrete instances of the hypotheses -/
 
 example : plus ⟨2, 3, [[1, 2, 3], [4, 5, 6]]⟩ ⟨2, 3, [[1, 1, 1], [1, 1, 1]]⟩
